@@ -5,6 +5,7 @@ import (
 	"fmt"
 	"runtime"
 	"strings"
+	"sync/atomic"
 	"time"
 
 	"verif/harness/internal/engine"
@@ -194,8 +195,13 @@ func (p c09) Exec(c *run.Ctx, idx int, raw json.RawMessage) []run.Result {
 		}
 	}
 
+	// transport faults do not depend on an element position: the three position slots are used for the three ways the
+	// call can travel - in memory; over a real net/http transport on a fresh connection; over one that an earlier
+	// request left in the keep-alive pool (net/http replays some requests by itself when such a connection dies)
+	overTCP := strings.HasPrefix(sp.Kind, "transport-") && !sp.Batch && sp.Second < 0 && sp.Pos != 0
+	warm := overTCP && sp.Pos == -2
 	base := runtime.NumGoroutine()
-	r, err := rig.New(sp.U, rig.Config{})
+	r, err := rig.New(sp.U, rig.Config{TCP: overTCP})
 	if r != nil {
 		defer r.Close()
 	}
@@ -203,25 +209,32 @@ func (p c09) Exec(c *run.Ctx, idx int, raw json.RawMessage) []run.Result {
 		res.Verdict = run.Skip
 		return []run.Result{res}
 	}
-	hit := 0
-	armed := true
+	if warm {
+		// the judged operation itself, fault free: afterwards every service it calls has an idle connection
+		r.Query(&sp.Op)
+		for _, s := range r.Services {
+			s.ResetCalls()
+		}
+		base = runtime.NumGoroutine()
+	}
+	var hit32, armed32 int32 = 0, 1 // written by service goroutines when the calls travel over TCP
 	for _, s := range r.Services {
 		s.FaultFn = func(cl *fake.Call) *fake.Fault {
-			if !armed {
+			if atomic.LoadInt32(&armed32) == 0 {
 				return nil
 			}
 			if sp.Batch {
 				// by content: the root call of the faulted operation
 				for _, rq := range cl.Requests {
 					if rq.OperationName == "FaultedOp" && cl.Service.Name == target.svc {
-						hit++
+						atomic.AddInt32(&hit32, 1)
 						return &fake.Fault{Kind: sp.Kind, Pos: -1}
 					}
 				}
 				return nil
 			}
 			if cl.Service.Name == target.svc && cl.SvcCall == target.n {
-				hit++
+				atomic.AddInt32(&hit32, 1)
 				pos := sp.Pos
 				if pos == -2 {
 					pos = len(cl.Requests) - 1
@@ -242,6 +255,12 @@ func (p c09) Exec(c *run.Ctx, idx int, raw json.RawMessage) []run.Result {
 	}
 	if sp.Batch {
 		tags["batch-with-canary"] = true
+	}
+	if overTCP {
+		tags["over-tcp"] = true
+	}
+	if warm {
+		tags["over-tcp-kept-alive-connection"] = true
 	}
 	if target2 != nil {
 		tags["two-faults"] = true
@@ -277,6 +296,7 @@ func (p c09) Exec(c *run.Ctx, idx int, raw json.RawMessage) []run.Result {
 		res.Verdict, res.Symptom, res.Message = run.Violated, "handler-did-not-return", "no answer within 60s after fault "+sp.Kind
 		return []run.Result{res}
 	}
+	hit := int(atomic.LoadInt32(&hit32))
 	res.NonTrivial = hit > 0
 	res.Counters["faults_hit"] = hit
 	res.Counters["kind:"+sp.Kind] = 1
@@ -346,7 +366,7 @@ func (p c09) Exec(c *run.Ctx, idx int, raw json.RawMessage) []run.Result {
 		res.Counters["leaves_checked"] = len(got)
 	}
 	// canary afterwards (faults disarmed: later requests must be unaffected by the earlier failure)
-	armed = false
+	atomic.StoreInt32(&armed32, 0)
 	if canaryOK && hr.Panic == nil {
 		ch := r.Query(&sp.Canary)
 		if v := judgeAgainstRef(ch, crefData); v != nil {
@@ -361,7 +381,10 @@ func (p c09) Exec(c *run.Ctx, idx int, raw json.RawMessage) []run.Result {
 	if len(leaked) > 0 {
 		add("downstream-answer-body-neither-read-nor-closed", fmt.Sprintf("%d of %d answer bodies (%s) were dropped unread and unclosed; %s", len(leaked), handed, strings.Join(leaked, ", "), desc))
 	}
-	if n := settleGoroutines(base + 2); n > base+2 {
+	if overTCP {
+		// listeners, server connections and the pool's idle connections keep goroutines of their own
+		res.Counters["goroutine_check_skipped_over_tcp"] = 1
+	} else if n := settleGoroutines(base + 2); n > base+2 {
 		add("goroutines-left-behind", fmt.Sprintf("%d goroutines before, %d after settle; %s", base, n, desc))
 	}
 	if len(viol) == 0 {
